@@ -37,6 +37,15 @@ def Ghost.addR (g : Ghost) (i : Nat) (d : Bytes) : Ghost :=
 def Ghost.setEof (g : Ghost) (i : Nat) : Ghost :=
   { g with eof := fun k => if k = i then true else g.eof k }
 
+/-- A read on object `i` returned end-of-stream: recorded if the object's receiving half was still
+    open before the read (or end-of-stream had been recorded already).  For an object that is read
+    through a live handle this is always the case — the receiving half is closed only by the read
+    that returns end-of-stream, by dropping the handle, or at creation for a stream nobody waits for. -/
+def Ghost.noteEof (g : Ghost) (e : EP) (i : Nat) : Ghost :=
+  match e.objs[i]? with
+  | some o => if o.rxOpen || g.eof i then g.setEof i else g
+  | none => g
+
 /-- The pair: endpoint `a`, endpoint `b`, the messages in transit `a → b` (`ab`, oldest first) and
     `b → a` (`ba`). -/
 structure PS where
@@ -46,9 +55,25 @@ structure PS where
   ba : List Msg := []
   ga : Ghost := {}
   gb : Ghost := {}
+  linked : List Nat := []   -- ghost: the flow ids that have been established on BOTH endpoints (history)
 
 /-- Exchange the roles of the two endpoints. -/
-def PS.swap (p : PS) : PS := { a := p.b, b := p.a, ab := p.ba, ba := p.ab, ga := p.gb, gb := p.ga }
+def PS.swap (p : PS) : PS :=
+  { a := p.b, b := p.a, ab := p.ba, ba := p.ab, ga := p.gb, gb := p.ga, linked := p.linked }
+
+/-- A `Reset` of flow `x` is among the messages. -/
+def hasReset (x : Nat) (l : List Msg) : Bool := l.any (fun m => m == .frame (.reset x))
+
+/-- The handshake of flow `x` completes with this `Acknowledge`: this side requested it, the peer
+    holds it established, and no `Reset` for it is in flight either way. -/
+def completes (p : PS) (f : Frame) : Option Nat :=
+  match f with
+  | .acknowledge x _ =>
+    match lookup p.a.flows x, lookup p.b.flows x with
+    | some (.requested _), some (.established _) =>
+      if hasReset x (p.ab ++ p.a.outq) || hasReset x (p.ba ++ p.b.outq) then none else some x
+    | _, _ => none
+  | _ => none
 
 /-- The actions of one side. -/
 inductive Act where
@@ -96,7 +121,7 @@ def stepL (p : PS) : Act → Option PS
       let r := appRead p.a h n
       let g := match r.2, p.a.handles[h]? with
         | .data bs, some i => p.ga.addR i bs
-        | .eof, some i => p.ga.setEof i
+        | .eof, some i => p.ga.noteEof p.a i
         | _, _ => p.ga
       some { p with a := r.1, ga := g }
   | .shutdown h =>
@@ -117,9 +142,12 @@ def stepL (p : PS) : Act → Option PS
   | .recv =>
     if p.a.park.isSome then none
     else match p.ba with
+      | .frame (.bind ..) :: _ => none          -- Bind requests are outside this fragment
       | .frame f :: rest =>
         match processFrame p.a f false with
-        | (e, _, none) => some { p with a := e, ba := rest }
+        | (e, _, none) =>
+          some { p with a := e, ba := rest,
+                        linked := match completes p f with | some x => x :: p.linked | none => p.linked }
         | _ => none
       | _ => none
   | .notif =>
@@ -177,7 +205,7 @@ def ghostOf (e : EP) (g : Ghost) (op : Mux.Op) (res : Res) : Ghost :=
   match op, res with
   | .write h d, .wrote _ => match e.handles[h]? with | some i => g.addW i d | none => g
   | .read h _, .data bs => match e.handles[h]? with | some i => g.addR i bs | none => g
-  | .read h _, .eof => match e.handles[h]? with | some i => g.setEof i | none => g
+  | .read h _, .eof => match e.handles[h]? with | some i => g.noteEof e i | none => g
   | .dropStream h, _ => { g with dropped := h :: g.dropped }
   | .sendDgram d, .unit => { g with dsent := g.dsent ++ [d] }
   | .recvDgram, .dgram d => { g with drecv := g.drecv ++ [d] }
@@ -191,9 +219,11 @@ def stimL (p : PS) (op : Mux.Op) : PS :=
 /-- One delivery stimulus at the left endpoint: the oldest message in transit is handed to it. -/
 def deliverL (p : PS) : Option PS :=
   match p.ba with
+  | .frame (.bind ..) :: _ => none          -- Bind requests are outside this fragment
   | .frame f :: rest =>
     let r := applyOp p.a (.deliver (.msg (.frame f)))
-    some { p with a := r.1, ba := rest, ab := p.ab ++ wiresOf r.2.2 }
+    some { p with a := r.1, ba := rest, ab := p.ab ++ wiresOf r.2.2,
+                  linked := match completes { p with a := unpark p.a } f with | some x => x :: p.linked | none => p.linked }
   | _ => none
 
 end Penguin.Pair
